@@ -214,7 +214,7 @@ def lzma2_layer(res, binary, hooked, tier, seed, prop, walks):
     if vac:
         raise ToolError("vacuous model: actions never taken: %s" % vac)
     res.add_tlc(mc, "chunk layer vs declarative chunk semantics: Refines, Verdict, SinkPrefix, FramingRejected over all chunk sequences of the bounded model (every reset class after every chunk kind, matches into earlier chunks, one framing fault)")
-    extra = ["--framing-extremes"] if prop == "C17" else []
+    extra = ["--framing-extremes", "--fault-walks", tq(tier, 400, 60000)] if prop == "C17" else []
     rep = run_harness(binary, ["lzma2", "--property", prop, "--seed", seed, "--export", mc["out"], "--limit", tq(tier, 60000, 3000000), "--walks", walks] + extra, "%s_l2" % prop)
     res.add_harness(rep, "every exported chunk sequence selected for %s serialised by the spec-driven LZMA2 encoder -> lzma2_decompress / raw Lzma2Decoder / one-block .xz" % prop)
     if tier == "thorough":
@@ -231,13 +231,13 @@ def plan_C02(res, binary, hooked, tier, seed):
 
 def plan_C17(res, binary, hooked, tier, seed):
     lzma2_layer(res, binary, hooked, tier, seed, "C17", 0)
-    return ("all chunk sequences of the bounded model ending in one framing fault: control 0x03/0x7F, props >= 225, lc+lp > 4, declared packed size too small / too large, declared unpacked size larger / smaller (cut inside a match / between symbols), short uncompressed chunk, missing end byte; distinct = distinct (stream bytes, api)"), TRUSTED_L2
+    return ("all chunk sequences of the bounded model ending in one framing fault, plus seeded long well-formed chunk sequences (aged probabilities, carried windows, 1..6 chunks) with one framing fault injected at a random chunk (control byte, props byte, declared sizes +-1..65536, cut, end byte, lowered reset class, stray bytes): control 0x03/0x7F, props >= 225, lc+lp > 4, declared packed size too small / too large, declared unpacked size larger / smaller (cut inside a match / between symbols), short uncompressed chunk, missing end byte; distinct = distinct (stream bytes, api)"), TRUSTED_L2
 
 def plan_C12(res, binary, hooked, tier, seed):
     mc = run_tlc("MC_IoFaults", "MC_IoFaults.cfg", "C12_mc", workers=4, timeout=300)
     res.add_tlc(mc, "the I/O contract (ErrIffFault, PrefixAlways, CompleteOnOk, FlushOnOk, NoCallAfterFailure) against a reference write_all/flush pipeline under every fault script (k-th call fails, Ok(0), arbitrary short writes, failing flush)")
     trace = os.path.join(WORK, "trace_C12.ndjson")
-    rep = run_harness(binary, ["io", "--property", "C12", "--seed", seed, "--inputs", tq(tier, 4, 40), "--trace", trace], "C12_io")
+    rep = run_harness(binary, ["io", "--property", "C12", "--seed", seed, "--inputs", tq(tier, 4, 120), "--trace", trace], "C12_io")
     res.add_harness(rep, "for every entry point (3 decoders, raw LZMA2, Stream, 5 encoder variants) and every sample input: fail each sink write (Err and Ok(0)), each flush, each source call; short-write patterns with fragmented sources", counts_as_traces=False)
     ok, info = validate_trace("Trace_Io", "Trace_Io_shape.cfg", trace, "C12_trace", timeout=tq(tier, 900, 7200))
     res.add_tlc(info, "trace validation of the recorded sink/source call logs (Contract as invariant after every call)")
@@ -263,7 +263,7 @@ def reader_models(res, tier, tag):
 def plan_C13(res, binary, hooked, tier, seed):
     reader_models(res, tier, "C13")
     trace = os.path.join(WORK, "trace_C13.ndjson")
-    rep = run_harness(binary, ["reader", "--mode", "c13", "--property", "C13", "--seed", seed, "--inputs", tq(tier, 10, 600), "--trace", trace], "C13_rd")
+    rep = run_harness(binary, ["reader", "--mode", "c13", "--property", "C13", "--seed", seed, "--inputs", tq(tier, 10, 6000), "--trace", trace], "C13_rd")
     res.add_harness(rep, "valid, truncated, bit-flipped and zero-padded inputs of all three formats through Cursor, scripted sources (1-byte, 2-byte, mixed, random fragments) and BufReader capacities 1,2,3,7,64,random; verdict / output / consumed compared with the all-at-once run", counts_as_traces=False)
     ok, info = validate_trace("Trace_Reader", "Trace_Reader.cfg", trace, "C13_trace", timeout=tq(tier, 900, 7200))
     res.add_tlc(info, "trace validation of the BufRead protocol log (fill/consume/read) of the scripted source")
@@ -286,7 +286,7 @@ def plan_C14(res, binary, hooked, tier, seed):
     mc = run_tlc("MC_RawReuse", "MC_RawReuse.cfg", "C14_mc", workers=8, timeout=600, coverage=False)
     res.add_tlc(mc, "all histories of decompress (leaving any used state) / reset(keep | size) up to 4 operations on both raw decoders: ResetIsFresh")
     trace = os.path.join(WORK, "trace_C14.ndjson")
-    rep = run_harness(binary, ["reuse", "--property", "C14", "--seed", seed, "--histories", tq(tier, 80, 12000), "--trace", trace], "C14_ru")
+    rep = run_harness(binary, ["reuse", "--property", "C14", "--seed", seed, "--histories", tq(tier, 80, 150000), "--trace", trace], "C14_ru")
     res.add_harness(rep, "seeded histories on real LzmaDecoder / Lzma2Decoder objects (valid, corrupt, truncated, property-changing and state-leaning streams; reset(None), reset(Some(None)), reset(Some(Some(n)))): after every reset the next decompress is also run on a new object and must agree", counts_as_traces=False)
     if hooked and os.path.exists(trace):
         ok, info = validate_trace("Trace_RawReuse", "Trace_RawReuse.cfg", trace, "C14_trace", timeout=tq(tier, 600, 3600))
